@@ -652,7 +652,7 @@ ASSUME = [
 def main(tier, seed):
     r = Runner19("C19", tier, seed)
     r.build()
-    can_run = r.impl_exe and r.model_exe and not any(k in ("corr-build", "model-build") for k, _, _ in r.build_problems)
+    can_run = r.can_run()
     if can_run:
         r.replay_findings({l.name: l for l in LEGS})
         for leg in LEGS:
